@@ -100,6 +100,7 @@ type prog struct {
 	A         *sim.Replica
 	profile   string
 	focus     string
+	calm      bool // a program that mostly plays by the rules (deep life-cycle states); hostile draws are rarer
 	contracts []*contract
 	senders   []*sim.Actor
 	last      *contract
@@ -306,7 +307,11 @@ func (p *prog) wildArgs(label string) [][]byte {
 
 // mangle turns a well-typed argument vector into one of: as is, wrong arity, one wild argument, all wild.
 func (p *prog) mangle(args [][]byte, label string) ([][]byte, string) {
-	switch rapid.IntRange(0, 11).Draw(p.t, label+"Mangle") {
+	m := rapid.IntRange(0, 11).Draw(p.t, label+"Mangle")
+	if p.calm && m >= 8 && !p.chance(label+"MangleAnyway", 25) {
+		m = 0
+	}
+	switch m {
 	case 8:
 		if len(args) > 0 {
 			return args[:p.draw(label+"Keep", len(args))], "arity-"
@@ -339,6 +344,9 @@ func (p *prog) payNeeded(label string, sender *sim.Actor, hints ...*big.Int) *bi
 
 func (p *prog) payAmount(label string, sender *sim.Actor, hints ...*big.Int) *big.Int {
 	k := rapid.IntRange(0, 13).Draw(p.t, label+"Class")
+	if p.calm && k >= 7 && !p.chance(label+"OddAnyway", 30) {
+		k = 0
+	}
 	if k < 7 {
 		if len(hints) > 0 {
 			return new(big.Int).Set(hints[p.draw(label+"Hint", len(hints))])
@@ -721,7 +729,11 @@ func (p *prog) smartVoting(c *contract) *opSpec {
 	st := p.cbyte(c, "state")
 	bal := p.balance(c.addr)
 	height := p.A.Head().Height() + 1
-	if p.chance("ovSide", 8) {
+	sideOdds := 8
+	if p.calm {
+		sideOdds = 3
+	}
+	if p.chance("ovSide", sideOdds) {
 		op := p.mkCall(c, p.anySender("ovStakeSender"), "addStake", p.payAmount("ovStakePay", c.owner, sim.Dna(3), big.NewInt(1)), nil, "typed", true)
 		op.post = postStakeGrewByAmount()
 		return op
@@ -757,7 +769,11 @@ func (p *prog) smartVoting(c *contract) *opSpec {
 					fresh = append(fresh, a)
 				}
 			}
-			if len(fresh) > 0 && p.chance("ovProof", 85) {
+			proofOdds := 85
+			if p.calm {
+				proofOdds = 96
+			}
+			if len(fresh) > 0 && p.chance("ovProof", proofOdds) {
 				a := fresh[p.draw("ovProofSender", len(fresh))]
 				if p.chance("ovProofNonIdentity", 8) {
 					a = p.anySender("ovProofAny")
@@ -994,12 +1010,54 @@ func (p *prog) wildStep(c *contract) *opSpec {
 	return p.mkCall(c, a, m, p.payAmount("wildPay", a, big.NewInt(0), sim.Dna(1)), p.wildArgs("wildArgs"), "wild", false)
 }
 
+// votingDriver steers a calm voting-focused program through one complete life cycle at a time: a voting from
+// deployment to finishVoting, then the locks that watch it (check / push / deposit / refund / terminate).
+func (p *prog) votingDriver(alive []*contract) *opSpec {
+	var cur *contract
+	for _, c := range alive {
+		if c.kind == "OracleVoting" && !p.votingFinished(c) {
+			cur = c
+		}
+	}
+	if cur != nil {
+		p.last = cur
+		return p.smartVoting(cur)
+	}
+	// every voting is finished (or there is none): work on the locks of finished votings
+	for _, ov := range alive {
+		if ov.kind != "OracleVoting" {
+			continue
+		}
+		var locks []*contract
+		for _, c := range alive {
+			if c.ov == ov {
+				locks = append(locks, c)
+			}
+		}
+		if len(locks) < 2 && p.chance("driverNewLock", 50) {
+			if len(locks) == 0 && p.chance("driverLockKind", 60) || len(locks) == 1 && locks[0].kind != "OracleLock" {
+				return p.deployEmbedded(embByName("OracleLock"))
+			}
+			return p.deployEmbedded(embByName("RefundableOracleLock"))
+		}
+		if len(locks) > 0 {
+			c := locks[p.draw("driverLock", len(locks))]
+			p.last = c
+			return p.smartStep(c)
+		}
+	}
+	return p.deployEmbedded(embByName("OracleVoting"))
+}
+
 func (p *prog) next() *opSpec {
 	var alive []*contract
 	for _, c := range p.contracts {
 		if !c.dead {
 			alive = append(alive, c)
 		}
+	}
+	if p.calm && p.focus == "voting" && p.chance("votingDriver", 88) {
+		return p.votingDriver(alive)
 	}
 	deployOdds := 4
 	switch len(alive) {
@@ -1028,7 +1086,11 @@ func (p *prog) next() *opSpec {
 		return p.deploy()
 	}
 	var c *contract
-	if p.last != nil && p.chance("stickToLast", 82) {
+	stick, smart := 82, 75
+	if p.calm {
+		stick, smart = 92, 90
+	}
+	if p.last != nil && p.chance("stickToLast", stick) {
 		c = p.last
 	} else {
 		// dead contracts stay addressable: calls to them must fail cleanly / be refused
@@ -1038,7 +1100,7 @@ func (p *prog) next() *opSpec {
 		return p.wildStep(c)
 	}
 	p.last = c
-	if p.chance("smartStep", 75) {
+	if p.chance("smartStep", smart) {
 		return p.smartStep(c)
 	}
 	return p.wildStep(c)
@@ -1090,6 +1152,9 @@ func (p *prog) build(op *opSpec) (*types.Transaction, string) {
 	budget := ample
 	var minus *big.Int
 	k := rapid.IntRange(0, 21).Draw(p.t, "gasClass") - 6
+	if p.calm && k >= 9 && !p.chance("gasOddAnyway", 30) {
+		k = 0
+	}
 	if k >= 9 {
 		// learn what the execution needs with an ample budget (steering only)
 		var need int64 = -1
